@@ -49,7 +49,7 @@ class IOEngine:
             h['seed'] = self.run.seed * 1000 + i
             out = os.path.join(self.run.work, 'rec-%s-%d.out' % (tag, i))
             trace = os.path.join(self.run.work, 'trace-%s-%d.ndjson' % (tag, i))
-            cmd = [os.path.join(BIN, 'replay'), '--cfg', json.dumps(h), '--nkeys', str(nkeys), '--trace', trace]
+            cmd = [os.path.join(BIN, 'replay'), '--cfg', json.dumps(h), '--nkeys', str(nkeys), '--trace', trace] + self.se.only_arg()
             if snapshots:
                 cmd.append('--snapshots')
             p = subprocess.Popen(cmd, stdin=open(files[i].name), stdout=open(out, 'w'),
@@ -153,16 +153,33 @@ class IOEngine:
         lines = open(trace).read().splitlines()
         evs = [json.loads(x) for x in lines[:6000]]
         made = 0
-        # (a) drop the sync_end events of the first explicit fsync or close
-        idx = next((i for i, e in enumerate(evs) if e['ev'] == 'ret' and e['op'] in ('fsync', 'close_active') and e['ok'] == 1), None)
-        if idx is not None:
-            cut = [e for i, e in enumerate(evs[:idx + 30]) if not (e['ev'] in ('sync_begin', 'sync', 'sync_end') and i < idx and i > idx - 12)]
+        # (a) drop the sync events of an explicit fsync that had un-synced bytes to cover
+        dirty = {}
+        cand = None
+        call_at = None
+        for i, e in enumerate(evs):
+            if e['ev'] == 'reset':
+                dirty = {}
+            elif e['ev'] == 'write_done' and e['k'] == 'blob':
+                dirty[e['f']] = True
+            elif e['ev'] == 'sync_end':
+                dirty[e['f']] = False
+            elif e['ev'] == 'call' and e['op'] == 'fsync':
+                call_at = i if any(dirty.values()) else None
+            elif e['ev'] == 'ret' and e['op'] == 'fsync' and e['ok'] == 1 and call_at is not None:
+                if any(x['ev'] == 'sync_end' for x in evs[call_at:i]):
+                    cand = (call_at, i)
+                    break
+                call_at = None
+        if cand:
+            c0, c1 = cand
+            cut = [e for i, e in enumerate(evs[:c1 + 3]) if not (c0 < i < c1 and e['ev'] in ('sync_begin', 'sync', 'sync_end'))]
             p = os.path.join(self.run.work, 'neg-a.ndjson')
             open(p, 'w').write('\n'.join(json.dumps(e) for e in cut) + '\n')
             r = self.validate(p, 'neg-a')
             made += 1
             if r['ok']:
-                raise ToolError('negative control failed: a trace without the sync of fsync/close was accepted')
+                raise ToolError('negative control failed: a trace without the sync of an explicit fsync was accepted')
         # (b) shift the offset of one append reservation
         idx = next((i for i, e in enumerate(evs) if e['ev'] == 'reserve' and e['k'] == 'blob' and e['off'] > 20), None)
         if idx is not None:
